@@ -176,7 +176,20 @@ fn wire(steps: &[String]) -> Vec<u8> {
 }
 
 pub fn check_history(rep: &Report, exe: &str, steps: &[String]) -> bool {
-    let o = Opts { exe, node_clock: Some(1), zseed: None, horizon: Duration::from_secs(HORIZON_S) };
+    check_history_clock(rep, exe, steps, 1)
+}
+
+/// As `check_history`, with `nodes_per_ms` nodes per millisecond of the engine's clock (1000 is
+/// about the speed of the real engine: its budgets then buy the depth they buy in play).
+pub fn check_history_clock(rep: &Report, exe: &str, steps: &[String], nodes_per_ms: u64) -> bool {
+    check_history_opt(rep, exe, steps, nodes_per_ms, true) == Some(true)
+}
+
+/// `timeout_is_verdict` = false for searches limited by depth only on positions where nothing in
+/// the property bounds their duration: a run that is still searching at the horizon is then not
+/// judged (None); a run that ends is judged as always.
+pub fn check_history_opt(rep: &Report, exe: &str, steps: &[String], nodes_per_ms: u64, timeout_is_verdict: bool) -> Option<bool> {
+    let o = Opts { exe, node_clock: Some(nodes_per_ms), zseed: None, horizon: Duration::from_secs(HORIZON_S) };
     let r = match blackbox::run(&o, &wire(steps)) {
         Ok(r) => r,
         Err(e) => {
@@ -184,17 +197,20 @@ pub fn check_history(rep: &Report, exe: &str, steps: &[String]) -> bool {
             std::process::exit(2);
         }
     };
+    if r.timed_out && !timeout_is_verdict {
+        return None;
+    }
     match judge(steps, &r) {
-        Ok(_) => true,
+        Ok(_) => Some(true),
         Err(text) => {
             let joined = steps.join(" | ");
             rep.violation(
                 format!("C03 history={}", joined),
-                format!("history [{}] (node clock: 1 node = 1 ms): {}", joined, text),
-                vec!["c03-one".to_string(), "--history".into(), joined.clone()],
+                format!("history [{}] (node clock: {} node(s) = 1 ms): {}", joined, nodes_per_ms, text),
+                vec!["c03-one".to_string(), "--history".into(), joined.clone(), "--nodes-per-ms".into(), nodes_per_ms.to_string()],
                 J::obj().set("stdout_tail", r.stdout.lines().rev().take(8).collect::<Vec<_>>()),
             );
-            false
+            Some(false)
         }
     }
 }
@@ -397,6 +413,35 @@ pub fn run(tier: &str, seed: u64, out: &str, exe: &str) {
         parts.push(J::obj().set("part", "f: a search at the end of a built legal game of thousands of plies (lengths 2^k-1, 2^k, 2^k+1 for k = 8..12 and the whole game)").set("longest_game_plies", game.len()).set("runs", jobs.len()));
     }
 
+    // ---- (g) the depth cap: positions in which the search tree collapses in the table (bare
+    // kings), so that the deepest iteration the engine allows really completes -- by a depth
+    // limit at and beyond the cap, and by budgets that buy that depth at the engine's real speed
+    if !rep.saturated() {
+        let mut jobs: Vec<(Vec<String>, u64)> = Vec::new();
+        for f in ["8/8/4k3/8/8/4K3/8/8 w - - 0 1", "8/8/4k3/8/8/4K3/8/8 b - - 0 1", "8/8/3k4/8/8/3K4/8/8 w - - 0 1"] {
+            let pc = format!("position fen {}", f);
+            for g in ["go depth 62", "go depth 63", "go depth 64", "go depth 65", "go depth 128", "go depth 255"] {
+                jobs.push((vec![pc.clone(), g.to_string()], 1));
+            }
+            for g in ["go wtime 30000 btime 30000", "go movetime 2000", "go wtime 300000 btime 300000 winc 2000 binc 2000"] {
+                jobs.push((vec![pc.clone(), g.to_string()], 1000));
+                jobs.push((vec![pc.clone(), g.to_string(), pc.clone(), g.to_string()], 1000));
+            }
+        }
+        let res: Vec<Option<bool>> = par_map(&jobs, |(h, npm)| {
+            if rep.saturated() {
+                return None;
+            }
+            runs.fetch_add(1, Ordering::Relaxed);
+            gos.fetch_add(h.iter().filter(|s| s.starts_with("go")).count() as u64, Ordering::Relaxed);
+            // a depth-only search may take as long as it likes: judged only if it ends
+            check_history_opt(&rep, exe, h, *npm, *npm != 1)
+        });
+        let unjudged = res.iter().filter(|x| x.is_none()).count();
+        eprintln!("[C03] depth cap on bare kings: {} runs, {} as expected, {} depth-only searches still running at the horizon (not judged) ({:.1}s)", jobs.len(), res.iter().filter(|x| **x == Some(true)).count(), unjudged, rep.elapsed());
+        parts.push(J::obj().set("part", "g: bare-king positions searched to the engine's depth cap (go depth 62..255; clock and movetime budgets at 1000 nodes per ms, once and twice in a process)").set("runs", jobs.len()).set("depth_only_searches_not_finished_at_the_horizon_and_not_judged", unjudged));
+    }
+
     // ---- (d) single searches of many positions: every special root (with colour mirrors) and
     // bare-material positions x every go set (thorough: also every state one ply from a root)
     if !rep.saturated() {
@@ -513,10 +558,10 @@ pub fn run(tier: &str, seed: u64, out: &str, exe: &str) {
     );
 }
 
-pub fn replay(history: &str, exe: &str) -> i32 {
+pub fn replay(history: &str, exe: &str, nodes_per_ms: u64) -> i32 {
     let rep = Report::new("C03", "quick", 0);
     let steps: Vec<String> = history.split(" | ").map(|s| s.trim().to_string()).collect();
-    check_history(&rep, exe, &steps);
+    check_history_clock(&rep, exe, &steps, nodes_per_ms);
     let v = rep.violations.lock().unwrap();
     for x in v.iter() {
         println!("REPLAY-VIOLATION {} :: {}", x.sig, x.text);
